@@ -2,6 +2,7 @@ package an
 
 import (
 	"go/token"
+	"go/types"
 
 	"golang.org/x/tools/go/ssa"
 )
@@ -108,30 +109,32 @@ func ReachConds(fn *ssa.Function, b *ssa.BasicBlock) (out [][]Cond, ok bool) {
 		return nil, false
 	}
 	for _, p := range paths {
-		if !Feasible(p) {
-			continue
-		}
-		var cs []Cond
-		feasible := true
-		for _, c := range p.Conds() {
-			upto := p
-			if c.Idx+1 <= len(p) {
-				upto = p[:c.Idx+1]
-			}
-			ex, feas := valueConds(c.V, upto, c.True, 0)
-			if !feas {
-				feasible = false
-				break
-			}
-			for _, e := range ex {
-				cs = append(cs, NormCond(e))
-			}
-		}
-		if feasible {
+		if cs, feasible := pathConds(p); feasible {
 			out = append(out, cs)
 		}
 	}
 	return out, true
+}
+
+// pathConds: what holds on one path (see ReachConds); feasible=false: the path cannot be taken.
+func pathConds(p Path) (cs []Cond, feasible bool) {
+	if !Feasible(p) {
+		return nil, false
+	}
+	for _, c := range p.Conds() {
+		upto := p
+		if c.Idx+1 <= len(p) {
+			upto = p[:c.Idx+1]
+		}
+		ex, feas := valueConds(c.V, upto, c.True, 0)
+		if !feas {
+			return nil, false
+		}
+		for _, e := range ex {
+			cs = append(cs, NormCond(e))
+		}
+	}
+	return cs, true
 }
 
 // ResultPaths: the feasible paths of fn on which bool result #idx may equal
@@ -278,6 +281,9 @@ func resultPathsDeep(fn *ssa.Function, idx int, want bool, chain []*ssa.Call, de
 //	if helper(x) {…}                       a bool
 //	switch route := helper(x); route {…}   a constant of an enum-like type
 //	out := helper(x); if out.f != nil {…}  a struct whose field is set or left zero
+//	in := newT(x); if in.state != k {…}    a field of the object a private constructor built, assigned
+//	                                       nowhere else: what the constructor's path last stored there
+//	                                       (also when the test sits in a method of the object)
 //
 // All tests of one call's answer on a path are taken together: the helper
 // return blocks consistent with every one of them are the alternatives.
@@ -291,10 +297,12 @@ func ReachCondsDeep(fn *ssa.Function, b *ssa.BasicBlock) ([][]Cond, bool) {
 
 // verdictTest: one test of a helper call's answer.
 type verdictTest struct {
-	kind  string // "bool" | "const" | "field"
-	pol   bool   // bool: wanted value; const: wanted equality; field: wanted "is nil"
-	k     *ssa.Const
-	field int
+	kind string // "bool" | "const" | "field" | "result" | "objfield"
+	// objfield: the chain of call sites down to the function the constructor call stands in
+	prefix []*ssa.Call
+	pol    bool // bool: wanted value; const: wanted equality; field: wanted "is nil"
+	k      *ssa.Const
+	field  int
 }
 
 func verdictOf(c Cond) (*ssa.Call, verdictTest, bool) {
@@ -354,7 +362,112 @@ func verdictOf(c Cond) (*ssa.Call, verdictTest, bool) {
 			}
 		}
 	}
+	// a field of the object a private constructor returned, compared with a constant
+	if u, ok := x.(*ssa.UnOp); ok && u.Op == token.MUL {
+		if fa, ok := u.X.(*ssa.FieldAddr); ok && FieldWriteOnceHook(fa.X.Type(), fa.Field) {
+			if call, prefix := constructorOf(fa.X, c.Chain); call != nil {
+				return call, verdictTest{kind: "objfield", pol: eq, k: k, field: fa.Field, prefix: prefix}, true
+			}
+		}
+	}
 	return nil, verdictTest{}, false
+}
+
+// constructorOf: obj (a value of the innermost function of chain) is, followed outwards through
+// parameters, the pointer a private constructor call returned; with the chain of the function that
+// call stands in.
+func constructorOf(obj ssa.Value, chain []*ssa.Call) (*ssa.Call, []*ssa.Call) {
+	v := obj
+	i := len(chain)
+	for {
+		v = LoadedValue(Unwrap(v))
+		par, isPar := v.(*ssa.Parameter)
+		if !isPar || i == 0 {
+			break
+		}
+		g := StaticCallee(&chain[i-1].Call)
+		if g == nil || par.Parent() != g {
+			return nil, nil
+		}
+		found := false
+		for j, gp := range g.Params {
+			if gp == par && j < len(chain[i-1].Call.Args) {
+				v, found = chain[i-1].Call.Args[j], true
+			}
+		}
+		if !found {
+			return nil, nil
+		}
+		i--
+	}
+	call, ok := v.(*ssa.Call)
+	if !ok {
+		return nil, nil
+	}
+	h := StaticCallee(&call.Call)
+	if !PrivateHelper(h) || h.Signature.Results().Len() != 1 || len(h.Blocks) == 0 {
+		return nil, nil
+	}
+	if _, isPtr := h.Signature.Results().At(0).Type().Underlying().(*types.Pointer); !isPtr {
+		return nil, nil
+	}
+	// every return hands out the one allocation of the constructor
+	var alloc *ssa.Alloc
+	for _, rb := range ReturnBlocks(h) {
+		a, isA := Unwrap(ReturnValues(LastInstr(rb).(*ssa.Return))[0]).(*ssa.Alloc)
+		if !isA || (alloc != nil && a != alloc) {
+			return nil, nil
+		}
+		alloc = a
+	}
+	if alloc == nil {
+		return nil, nil
+	}
+	return call, append([]*ssa.Call(nil), chain[:i]...)
+}
+
+// lastFieldStore: the value field #field of the object at alloc holds at the end of path p (nil: never
+// assigned on it); known=false: a store the path's order does not settle (inside a loop, through an alias).
+func lastFieldStore(p Path, alloc *ssa.Alloc, field int) (val ssa.Value, known bool) {
+	seen := map[*ssa.BasicBlock]bool{}
+	for _, b := range p {
+		if seen[b] {
+			return nil, false
+		}
+		seen[b] = true
+		for _, in := range b.Instrs {
+			if st, ok := in.(*ssa.Store); ok {
+				if fa, ok := st.Addr.(*ssa.FieldAddr); ok && fa.Field == field && fa.X == ssa.Value(alloc) {
+					val = st.Val
+				}
+			}
+		}
+	}
+	return val, true
+}
+
+// constAgrees: does val (nil: the zero value) equal the constant k; known=false: val is not a constant.
+func constAgrees(val ssa.Value, k *ssa.Const) (eq, known bool) {
+	zeroK := k.Value == nil || k.Value.ExactString() == "0" || k.Value.ExactString() == "false" || k.Value.ExactString() == `""`
+	if val == nil {
+		return zeroK, true
+	}
+	vk, ok := unconvVal(val).(*ssa.Const)
+	if !ok {
+		if k.Value == nil {
+			switch nilness(val, 0) {
+			case 1:
+				return false, true
+			case -1:
+				return true, true
+			}
+		}
+		return false, false
+	}
+	if vk.Value == nil || k.Value == nil {
+		return (vk.Value == nil || vk.Value.ExactString() == "0") == zeroK && (vk.Value == nil) == (k.Value == nil), true
+	}
+	return vk.Value.ExactString() == k.Value.ExactString(), true
 }
 
 func unconvVal(v ssa.Value) ssa.Value {
@@ -466,6 +579,11 @@ func nilness(v ssa.Value, depth int) int {
 	case *ssa.Alloc, *ssa.MakeMap, *ssa.MakeSlice, *ssa.MakeChan, *ssa.MakeClosure, *ssa.Function:
 		return 1
 	case *ssa.Call:
+		// library constructors of errors never return nil
+		switch CalleeName(&x.Call) {
+		case "fmt.Errorf", "errors.New":
+			return 1
+		}
 		// a constructor: every return hands out a fresh allocation
 		g := StaticCallee(&x.Call)
 		if g == nil || len(g.Blocks) == 0 || depth > 3 {
@@ -515,7 +633,41 @@ func spliceVerdicts(paths [][]Cond, chain []*ssa.Call, depth int) [][]Cond {
 				}
 				return tagged
 			}
-			if tests[call][0].kind == "bool" {
+			if tests[call][0].kind == "objfield" {
+				nchain = append(append([]*ssa.Call(nil), tests[call][0].prefix...), call)
+				for _, rb := range ReturnBlocks(h) {
+					alloc, _ := Unwrap(ReturnValues(LastInstr(rb).(*ssa.Return))[0]).(*ssa.Alloc)
+					ps, pok := PathsTo(h, rb, 4096)
+					if alloc == nil || !pok {
+						known = false
+						break
+					}
+					for _, p := range ps {
+						pcs, feas := pathConds(p)
+						if !feas {
+							continue
+						}
+						consistent := true
+						for _, t := range tests[call] {
+							if t.kind != "objfield" {
+								known = false
+								continue
+							}
+							val, ok := lastFieldStore(p, alloc, t.field)
+							if !ok {
+								known = false
+								continue
+							}
+							if eq, k := constAgrees(val, t.k); k && eq != t.pol {
+								consistent = false
+							}
+						}
+						if consistent {
+							alts = append(alts, tag(pcs))
+						}
+					}
+				}
+			} else if tests[call][0].kind == "bool" {
 				rps, ok := ResultPaths(h, 0, tests[call][0].pol)
 				if !ok {
 					continue
@@ -637,6 +789,20 @@ func ResultFieldPaths(call *ssa.Call, field int) (paths []string, ok bool) {
 	return resultFieldPaths(h, []*ssa.Call{call}, field, 0)
 }
 
+// ResultFieldPathsStrict: like ResultFieldPaths, but a return of the helper that leaves the
+// field at its zero value makes the reading fail (ok=false): every way out sets the field.
+func ResultFieldPathsStrict(call *ssa.Call, field int) (paths []string, ok bool) {
+	h := StaticCallee(&call.Call)
+	if h == nil {
+		return nil, false
+	}
+	strictFieldPaths = true
+	defer func() { strictFieldPaths = false }()
+	return resultFieldPaths(h, []*ssa.Call{call}, field, 0)
+}
+
+var strictFieldPaths bool
+
 func resultFieldPaths(h *ssa.Function, chain []*ssa.Call, field int, depth int) ([]string, bool) {
 	var out []string
 	if h.Signature.Results().Len() > 1 {
@@ -660,6 +826,7 @@ func resultFieldPaths(h *ssa.Function, chain []*ssa.Call, field int, depth int) 
 			if !isA || x.Op != token.MUL || a.Referrers() == nil {
 				return nil, false
 			}
+			before := len(out)
 			for _, r := range *a.Referrers() {
 				if fa, isFA := r.(*ssa.FieldAddr); isFA && fa.Field == field && fa.Referrers() != nil {
 					for _, r2 := range *fa.Referrers() {
@@ -668,6 +835,9 @@ func resultFieldPaths(h *ssa.Function, chain []*ssa.Call, field int, depth int) 
 						}
 					}
 				}
+			}
+			if strictFieldPaths && len(out) == before {
+				return nil, false // this return leaves the field zero
 			}
 		case *ssa.Call:
 			g := StaticCallee(&x.Call)
